@@ -201,12 +201,40 @@ fn cmd_front(casefile: &str, with_plans: bool, with_doc: bool) {
     }
 }
 
+/// consts <file>: each line `type<TAB>literal`; parses `const <type> ZC = <literal>;` through
+/// the real parser (range check included) and prints `ok` / `reject <class>` per line.
+fn cmd_consts(file: &str, allow_ub: bool) {
+    let f = std::fs::File::open(file).expect("file");
+    let out = std::io::stdout();
+    let mut out = std::io::BufWriter::new(out.lock());
+    for line in std::io::BufReader::new(f).lines() {
+        let line = line.unwrap();
+        let parts: Vec<&str> = line.split('\t').collect();
+        if parts.len() < 2 {
+            continue;
+        }
+        let text = format!("const {} ZC = {};\n", parts[0], parts[1]);
+        let r = catch_unwind(AssertUnwindSafe(|| {
+            idlc_ast::from_string(PathBuf::from("c.idl"), &text, allow_ub).map(|_| ()).map_err(|e| e.to_string())
+        }));
+        match r {
+            Ok(Ok(())) => writeln!(out, "ok").unwrap(),
+            Ok(Err(e)) => writeln!(out, "reject {} {}", classify(&e, 0), one_line(&e)).unwrap(),
+            Err(_) => {
+                let m = last_panic();
+                writeln!(out, "reject {} {}", classify(&m, 0), one_line(&m)).unwrap()
+            }
+        }
+    }
+}
+
 fn main() {
     install_hook();
     let args: Vec<String> = std::env::args().collect();
     match args.get(1).map(String::as_str) {
         Some("front") => cmd_front(&args[2], args.iter().any(|a| a == "--plans"), args.iter().any(|a| a == "--doc")),
         Some("cmp-table") => plan::cmd_cmp_table(),
+        Some("consts") => cmd_consts(&args[2], args.iter().any(|a| a == "--ub")),
         _ => {
             eprintln!("usage: vharness front <casefile> [--plans] [--doc] | cmp-table");
             std::process::exit(2);
